@@ -471,6 +471,12 @@ func (r *SqlManager) transactionHelper(ctx context.Context, operation func(tx *g
 					return err
 				}
 			}
+			// a failed create must not leave DIDs without DID documents
+			for _, change := range changes {
+				if err := deleteDIDWithoutDocuments(tx, change.DIDDocumentVersion.DID.ID); err != nil {
+					return err
+				}
+			}
 		} else {
 			// delete all changes
 			for _, change := range changes {
@@ -489,6 +495,20 @@ func (r *SqlManager) transactionHelper(ctx context.Context, operation func(tx *g
 	}
 	// then functional error
 	return errManager
+}
+
+// deleteDIDWithoutDocuments removes the DID from the did table if it has no DID document versions (left).
+// To be called after DID document versions have been rolled back: when its first version is rolled back the DID was never created.
+// If the row would remain, the subject exists forever without DID documents and can't be created again.
+func deleteDIDWithoutDocuments(tx *gorm.DB, didID string) error {
+	var remaining int64
+	if err := tx.Model(&orm.DidDocument{}).Where("did = ?", didID).Count(&remaining).Error; err != nil {
+		return err
+	}
+	if remaining > 0 {
+		return nil
+	}
+	return tx.Where("id = ?", didID).Delete(&orm.DID{}).Error
 }
 
 // applyToDIDDocuments is a helper function that applies an operation to all DID documents of a subject (1 per did method).
@@ -569,6 +589,7 @@ func (r *SqlManager) Rollback(ctx context.Context) {
 			groupedChanges[change.TransactionID] = append(groupedChanges[change.TransactionID], change)
 		}
 		// check per transaction_id if all are committed
+		rolledBack := make([]orm.DIDChangeLog, 0)
 		for transactionID, versionChanges := range groupedChanges {
 			committed := true
 			for _, change := range versionChanges {
@@ -587,11 +608,18 @@ func (r *SqlManager) Rollback(ctx context.Context) {
 					if err != nil {
 						return err
 					}
+					rolledBack = append(rolledBack, change)
 				}
 			}
 			// delete all changes, also done via cascading in case of !committed, but less code this way
 			err = tx.Where("transaction_id = ?", transactionID).Delete(&orm.DIDChangeLog{}).Error
 			if err != nil {
+				return err
+			}
+		}
+		// a rolled back create must not leave DIDs without DID documents
+		for _, change := range rolledBack {
+			if err = deleteDIDWithoutDocuments(tx, change.DIDDocumentVersion.DID.ID); err != nil {
 				return err
 			}
 		}
